@@ -14,7 +14,9 @@ def reset():
 meta = json.load(open(os.path.join(seed, 'meta.json')))
 demo_cmd = meta['demo_cmd']
 demo_cmd = re.sub(r'/tmp/wt-c\d+(-target)?', lambda m: '/tmp/wt-me' + (m.group(1) or ''), demo_cmd)
-demo_cmd = re.sub(r'^cd .+? && ', '', demo_cmd)
+cmds = [c.strip() for c in re.findall(r'cargo test[^&;(\[\n]*', demo_cmd)]
+cmds = [re.sub(r'\s+\(.*$', '', c) for c in cmds]
+demo_cmd = ' && '.join(dict.fromkeys(cmds)) if cmds else demo_cmd
 out = {'demo_cmd': demo_cmd}
 reset()
 sh('git checkout -q --detach $(git -C /repo rev-parse HEAD)')
